@@ -2,6 +2,8 @@ package checks
 
 import (
 	"context"
+	"crypto/sha256"
+	"encoding/hex"
 	"encoding/json"
 	"fmt"
 	"math/rand"
@@ -11,6 +13,7 @@ import (
 	"sync"
 	"time"
 
+	"github.com/btcsuite/btcd/btcec/v2/schnorr"
 	"github.com/coder/websocket"
 	"github.com/high-moctane/mocrelay"
 
@@ -156,11 +159,19 @@ func (g *frameGen) frameOf(class string, k int) frame {
 		return frame{class: class, data: js(&mocrelay.ClientEventMsg{Event: e})}
 	case "forgedsig":
 		e := signed(1)
-		if g.r.Intn(2) == 0 {
+		switch g.r.Intn(4) {
+		case 0:
 			e.Sig = flipHexBit(e.Sig, g.r.Intn(128))
-		} else {
+		case 1:
 			o := g.conc.SignRaw("z", 1, 1, nil, "other")
 			e.Sig = o.Sig
+		case 2:
+			e.Sig = strings.Repeat("f", 128) // correct id, a signature that cannot even be parsed
+		default:
+			// correct id for a public key that is not on the curve
+			e.Pubkey = offCurvePubkey()
+			h := sha256.Sum256(abs.Canonical(e.Pubkey, e.CreatedAt, e.Kind, e.Tags, e.Content))
+			e.ID = hex.EncodeToString(h[:])
 		}
 		return frame{class: class, data: js(&mocrelay.ClientEventMsg{Event: e})}
 	case "altered":
@@ -178,6 +189,22 @@ func (g *frameGen) frameOf(class string, k int) frame {
 		return frame{class: class, data: js(&mocrelay.ClientEventMsg{Event: e})}
 	}
 	return frame{class: "nonjson", data: []byte("?")}
+}
+
+var offCurve string
+
+// offCurvePubkey returns a 32-byte x coordinate that is not on secp256k1.
+func offCurvePubkey() string {
+	if offCurve != "" {
+		return offCurve
+	}
+	for i := 0; ; i++ {
+		h := sha256.Sum256([]byte(fmt.Sprint("verif-offcurve", i)))
+		if _, err := schnorr.ParsePubKey(h[:]); err != nil {
+			offCurve = hex.EncodeToString(h[:])
+			return offCurve
+		}
+	}
 }
 
 func markerOf(m mocrelay.ClientMsg) string {
@@ -273,6 +300,10 @@ func runGateSession(url string, frames []frame, emitPlan func(int) int, ev *mocr
 		}
 	}()
 	for _, f := range frames {
+		if f.class == "pause" {
+			time.Sleep(400 * time.Millisecond) // the session outlives the send timeout
+			continue
+		}
 		typ := websocket.MessageText
 		if f.binary {
 			typ = websocket.MessageBinary
@@ -293,7 +324,15 @@ func runGateSession(url string, frames []frame, emitPlan func(int) int, ev *mocr
 	defer h.mu.Unlock()
 	classes := []string{}
 	for _, f := range frames {
-		classes = append(classes, f.class)
+		if f.class != "pause" {
+			classes = append(classes, f.class)
+		}
+	}
+	var byMarker []frame // frames without the pauses: marker f<k> is the k-th of them
+	for _, f := range frames {
+		if f.class != "pause" {
+			byMarker = append(byMarker, f)
+		}
 	}
 	toHandler := []int{}
 	for _, m := range h.received {
@@ -304,8 +343,8 @@ func runGateSession(url string, frames []frame, emitPlan func(int) int, ev *mocr
 		idx := 0
 		fmt.Sscanf(mk, "f%d", &idx)
 		// the handler must have received the very message of that frame
-		if idx >= 1 && idx <= len(frames) {
-			pm, err := mocrelay.ParseClientMsg(frames[idx-1].data)
+		if idx >= 1 && idx <= len(byMarker) {
+			pm, err := mocrelay.ParseClientMsg(byMarker[idx-1].data)
 			if err != nil || !reflect.DeepEqual(pm, m) {
 				idx = 0
 			}
@@ -492,6 +531,37 @@ func C12(run *core.Run) {
 		}
 		distinct.Add(fmt.Sprint("long", i))
 		runSeq(s, 3, r)
+	}
+	// (3) sessions that outlive the send timeout: SendTimeout 150 ms, a 400 ms pause in the middle
+	slowRelay := func(h mocrelay.Handler) (*httptest.Server, func()) {
+		opt := mocrelay.NewDefaultRelayOption()
+		opt.RecvRateLimitRate = 1e9
+		opt.RecvRateLimitBurst = 1 << 30
+		opt.SendTimeout = 150 * time.Millisecond
+		opt.PingDuration = []time.Duration{0, time.Minute}[r.Intn(2)]
+		srv := httptest.NewServer(mocrelay.NewRelay(h, opt))
+		return srv, func() { srv.Close() }
+	}
+	for i := 0; i < 3; i++ {
+		var frames []frame
+		k := 0
+		for j := 0; j < 8; j++ {
+			if j == 4 {
+				frames = append(frames, frame{class: "pause"})
+				continue
+			}
+			k++
+			frames = append(frames, g.frameOf(classes[r.Intn(len(classes))], k))
+		}
+		line, problem := runGateSession("", frames, func(n int) int { return 1 }, w.ev, slowRelay)
+		if problem != "" {
+			run.Problem("session could not be run: %s", problem)
+			continue
+		}
+		line["shape"] = "session outliving SendTimeout: " + fmt.Sprint(line["shape"])
+		lines = append(lines, line)
+		run.Add("frames_sent", int64(len(frames)-1))
+		distinct.Add(fmt.Sprint("slow", i))
 	}
 	traces := []tv.Trace{}
 	for i, l := range lines {
